@@ -113,6 +113,14 @@ def strategy(tier):
                                'c': st.integers(0, 7),
                                'num': st.sampled_from([7, 'seven', -9]),
                                'id2': st.integers(0, 5)}),
+        # a transport that already has a client on one namespace asks for a
+        # second one, whose connect handler takes its time; the client that
+        # is connected goes on sending events meanwhile
+        st.fixed_dictionaries({'op': st.just('cwindow'),
+                               'c': st.integers(0, 7),
+                               'ns': st.integers(0, 3),
+                               'n': st.integers(1, 3),
+                               'ids': st.booleans()}),
         st.fixed_dictionaries({'op': st.just('window'),
                                'c': st.integers(0, 7),
                                'how': st.sampled_from(['cdisc', 'sdisc']),
@@ -222,6 +230,27 @@ def _run(case, w):
         sio.on('disconnect', on_disc, namespace=ns_)
     ns_obj.on_disconnect = on_disc
 
+    cwin = {}       # namespace whose connect handler is deciding ->
+    #                  (eio sid, frames the transport sends meanwhile)
+    cgates = {}
+
+    def mk_conn(ns_):
+        if coro:
+            async def on_conn(sid, environ, auth=None):
+                if ns_ in cwin:
+                    cgates[ns_] = w.h.loop.create_future()
+                    await cgates[ns_]
+        else:
+            def on_conn(sid, environ, auth=None):
+                if ns_ in cwin and not aio:
+                    eio_sid, frames = cwin.pop(ns_)
+                    for f in frames:        # re-entrant: "another thread"
+                        w.h.feed(eio_sid, f, settle=False)
+        return on_conn
+    for ns_ in ('/', '/x', '/none'):
+        sio.on('connect', mk_conn(ns_), namespace=ns_)
+    ns_obj.on_connect = mk_conn('/c')
+
     for _ in range(4):
         w.open()
     for t, n in case['init']:
@@ -328,6 +357,81 @@ def _run(case, w):
                                 'acks %r' % (acks,))
             w.h.swallowed[:] = []
             labels['placeholder_lookalike_argument'] = True
+            labels['nontrivial'] = True
+            log.clear()
+            continue
+        if k == 'cwindow':
+            lv = w.live()
+            if not lv or (aio and not coro):
+                continue
+            ci = lv[op['c'] % len(lv)]
+            c = w.clients[ci]
+            nsb = NSS[op['ns']]
+            if nsb == c['ns'] or w.client_on(c['t'], nsb) is not None or \
+                    responsible(c['ns'], 'a') is None:
+                continue
+            frames, want_tags, want_acks = [], [], []
+            for i in range(op['n']):
+                tag += 1
+                rets[tag] = 'cw%d' % tag
+                eid = 500 + i if op['ids'] else None
+                frames += wire.frames(wire.EVENT, c['ns'], eid,
+                                      ['a', {'__tag': tag}, i])
+                want_tags.append(tag)
+                if eid is not None:
+                    want_acks.append((c['ns'], eid, ['cw%d' % tag]))
+            log.clear()
+            w.recv_all()
+            eio_sid = w.t[c['t']]
+            cwin[nsb] = (eio_sid, frames)
+            if aio:
+                sock = w.h.eio.sockets[eio_sid]
+                task = w.h.loop.spawn(sock.receive(w.h.eio_packet.Packet(
+                    w.h.eio_packet.MESSAGE,
+                    wire.frames(wire.CONNECT, nsb)[0])))
+                w.h.loop.run_until_idle()
+                if nsb not in cgates:
+                    raise Violation('connect-handler-count',
+                                    'the connect handler of %s did not run'
+                                    % nsb)
+                for f in cwin.pop(nsb)[1]:
+                    w.h.feed(eio_sid, f, settle=False)
+                w.h.settle()
+                mid = [a['__tag'] for kind, args in log for a in args
+                       if isinstance(a, dict) and set(a) == {'__tag'}]
+                cgates.pop(nsb).set_result(None)
+                w.h.loop.run_until_idle()
+                if not task.done() or task.exception() is not None:
+                    raise Violation('connect-failed', repr(task))
+            else:
+                w.send(c['t'], wire.CONNECT, nsb)
+                mid = None
+            w.h.settle()
+            tags = [a['__tag'] for kind, args in log for a in args
+                    if isinstance(a, dict) and set(a) == {'__tag'}]
+            if sorted(tags) != want_tags or (mid is not None and
+                                             sorted(mid) != want_tags):
+                raise Violation('event-lost-while-sibling-connects',
+                                'client %s on %s sent events %r while its '
+                                'transport was connecting to %s: handled %r'
+                                ' (%r before that handler answered)'
+                                % (c['sid'], c['ns'], want_tags, nsb, tags,
+                                   mid))
+            got = w.recv(c['t'])
+            acks = sorted((p['nsp'], p['id'], p['data']) for p in got
+                          if p['type'] in (wire.ACK, wire.BINARY_ACK))
+            if acks != sorted(want_acks):
+                raise Violation('ack-lost-while-sibling-connects',
+                                'acks %r, expected %r' % (acks, want_acks))
+            for p in got:
+                if p['type'] == wire.CONNECT and p['nsp'] == nsb:
+                    w.clients.append({'t': c['t'], 'ns': nsb,
+                                      'sid': p['data']['sid'],
+                                      'alive': True})
+                    w.all_sids.append(p['data']['sid'])
+            if w.client_on(c['t'], nsb) is None:
+                raise Violation('connect-failed', repr(got))
+            labels['events_while_sibling_namespace_connects'] = True
             labels['nontrivial'] = True
             log.clear()
             continue
